@@ -1,5 +1,6 @@
 import OapiVerif.Proofs.Responses
 import OapiVerif.Proofs.GoJsonEnc
+import OapiVerif.Proofs.Form
 /-!
 C13 — Client response parsing fills the declared slot.
 
@@ -152,3 +153,24 @@ example : let t := GoTy.struct (.cons "id" false int64 (.cons "tags" true (.ptr 
     wf t = true ∧ hasTy t v = true ∧ stable t v = true := by decide
 
 end OapiVerif.GoJson
+
+namespace OapiVerif.Form
+open OapiVerif.IntParse
+
+/-- Last clause of C13, form bodies: what the typed client builder sends for a flat body struct (`MarshalForm`: one pair
+per member, a nil optional member left out) is read back by `BindForm` as that struct — strings unchanged, integers of
+any width within their range, booleans. -/
+theorem C13_form_body_decodes_to_value (fs : List Field) (vs : List (Option SVal)) (hnd : (fs.map (·.name)).Nodup)
+    (hw : wellTyped fs vs = true) : bind (marshal fs vs) fs = some vs := bind_marshal fs vs hnd hw
+
+/-- An optional member that is nil sends nothing, and nothing else is sent in its name. -/
+theorem C13_form_nil_optional_absent (f : Field) (fs : List Field) (vs : List (Option SVal))
+    (hnd : ((f :: fs).map (·.name)).Nodup) : lookup (marshal (f :: fs) (none :: vs)) f.name = none := by
+  simp only [List.map_cons, List.nodup_cons] at hnd
+  exact lookup_absent _ _ (fun kv hkv hk => hnd.1 (hk ▸ marshal_keys fs vs kv hkv))
+
+/-- Non-vacuity, and the shape of the pairs. -/
+example : marshal [⟨wB "a", .str, false⟩, ⟨wB "n", .int 32, true⟩, ⟨wB "f", .bool, true⟩] [some (.str (wB "x y")), none, some (.bool true)] =
+    [(wB "a", wB "x y"), (wB "f", wB "true")] := by decide
+
+end OapiVerif.Form
